@@ -124,7 +124,8 @@ theorem rep_corrupt {dc : DrawCfg} {rc : RenderCfg} {t : Term} {a : ATerm} (R : 
   exact
   { good := by unfold corruptFor; split <;> exact ⟨R.good.st, R.good.utf8, R.good.font, R.good.g0, R.good.so, R.good.irm, R.good.mal, R.good.rw⟩
     quiet := ⟨fun h => by unfold corruptFor; rw [if_pos h]; exact R.quiet.link h,
-              fun h => by unfold corruptFor; split <;> exact R.quiet.vis h⟩
+              fun h => by unfold corruptFor; split <;> exact R.quiet.vis h,
+              fun h => by unfold corruptFor; split <;> exact R.quiet.ff h⟩
     w := by rw [hw]; exact R.w, h := by rw [hh]; exact R.h
     cells := fun _ _ _ _ => trivial
     conts := fun _ _ _ => Or.inr rfl
@@ -139,7 +140,7 @@ theorem rep_corrupt {dc : DrawCfg} {rc : RenderCfg} {t : Term} {a : ATerm} (R : 
 theorem rep_resize {dc : DrawCfg} {rc : RenderCfg} {t : Term} {a : ATerm} (R : Rep dc rc t a) (w h : Int) (hw : 0 ≤ w) (hh : 0 ≤ h) :
     Rep dc rc (t.resize w.toNat h.toNat) (a.resized w h) :=
   { good := ⟨R.good.st, R.good.utf8, R.good.font, R.good.g0, R.good.so, R.good.irm, R.good.mal, R.good.rw⟩
-    quiet := ⟨R.quiet.link, R.quiet.vis⟩
+    quiet := ⟨R.quiet.link, R.quiet.vis, R.quiet.ff⟩
     w := by show ((w.toNat : Nat) : Int) = w; omega
     h := by show ((h.toNat : Nat) : Int) = h; omega
     cells := fun _ _ _ _ => trivial
@@ -149,18 +150,26 @@ theorem rep_resize {dc : DrawCfg} {rc : RenderCfg} {t : Term} {a : ATerm} (R : R
     vis := by intro b h; simp [ATerm.resized, ATerm.corrupt] at h
     shape := R.shape }
 
-/-- hypotheses on the configuration shared by all Layer-B history theorems -/
+/-- hypotheses on the configuration shared by all Layer-B history theorems.  The bottom-right corner trick is allowed
+    (`walk`: `cornerTrick` arbitrary); on a terminal that uses it the insert-character string has to be ICH (`ich`) and the
+    histories have to satisfy Layer A's side condition (`World.SafeRun`, a hypothesis of the theorems, vacuous without the trick). -/
 structure CfgB (c : DrawCfg) (rc : RenderCfg) : Prop where
   rwOk : RwOk c.rw
   rwB : RwB c.rw
   pay : Utf8Payload c
-  noCorner : c.Plain
+  walk : c.Walk
   fx : CapsFx c rc
+  ich : c.cornerTrick = true → IchFx c rc
+
+/-- of the side condition `CornerSafe` the byte-level simulation needs the width only -/
+theorem w2_of_safe {c : DrawCfg} {s : Scr} (h : CornerSafe c (s.draw c).1) : c.cornerTrick = true → 2 ≤ s.w :=
+  fun hc => ((CornerSafe.of_draw h) hc).1
 
 theorem rep_step {c : DrawCfg} {rc : RenderCfg} (hc : CfgB c rc) {b : BWorld} (inv : WInv c b.wd) (bi : BWInv c b.wd)
-    (R : Rep c rc b.e b.wd.t) (op : ScrOp) (hb : OpB c op) : Rep c rc (b.step c rc op).e (b.step c rc op).wd.t := by
+    (R : Rep c rc b.e b.wd.t) (op : ScrOp) (hb : OpB c op) (hsafe : b.wd.SafeAt c op) :
+    Rep c rc (b.step c rc op).e (b.step c rc op).wd.t := by
   have hf := inv.fini
-  have simA := fun {t a} (R : Rep c rc t a) cmds (h : AdmitAll c a cmds) => sim_all hc.rwB hc.fx cmds R h
+  have simA := fun {t a} (R : Rep c rc t a) cmds (h : AdmitAll c a cmds) => sim_all hc.rwB hc.fx hc.ich cmds R h
   cases op with
   | setContent x y m comb st => simpa [BWorld.step, World.step, ScrW.step, Render.renderAll, ATerm.applyAll] using R
   | fill r st => simpa [BWorld.step, World.step, ScrW.step, Render.renderAll, ATerm.applyAll] using R
@@ -179,7 +188,7 @@ theorem rep_step {c : DrawCfg} {rc : RenderCfg} (hc : CfgB c rc) {b : BWorld} (i
     rw [et]
     apply simA R
     rw [ecmd]
-    apply draw_admits hc.rwOk hc.rwB hc.pay hc.noCorner
+    apply draw_admits hc.rwOk hc.rwB hc.pay
     have hsz : (b.wd.sw.s.resize (some (b.wd.sw.ttyw, b.wd.sw.ttyh))).w = b.wd.sw.ttyw ∧
         (b.wd.sw.s.resize (some (b.wd.sw.ttyw, b.wd.sw.ttyh))).h = b.wd.sw.ttyh ∧
         BufOkS c (b.wd.sw.s.resize (some (b.wd.sw.ttyw, b.wd.sw.ttyh))) := by
@@ -187,17 +196,26 @@ theorem rep_step {c : DrawCfg} {rc : RenderCfg} (hc : CfgB c rc) {b : BWorld} (i
       · rw [hs.1, hs.2, resize_same_size]; exact ⟨rfl, rfl, inv.buf⟩
       · rw [resize_diff _ _ _ hs]
         exact ⟨rfl, rfl, (resize_invalidate_ok hc.rwOk _ _ _ inv.buf).1⟩
+    have hs' : (b.wd.step c .show).sw.s = ((b.wd.sw.s.resize (some (b.wd.sw.ttyw, b.wd.sw.ttyh))).draw c).1 := by
+      simp only [World.step, ScrW.step, Scr.show, hf, Bool.false_eq_true, if_false]; split <;> rfl
+    have hsafe' : CornerSafe c (b.wd.step c .show).sw.s := hsafe
+    rw [hs'] at hsafe'
     exact { tw := by rw [hsz.1]; exact inv.tdim.1, th := by rw [hsz.2.1]; exact inv.tdim.2, buf := hsz.2.2,
-            ext := bi.b.resize _ _ bi.tty }
+            ext := bi.b.resize _ _ bi.tty, w2 := w2_of_safe hsafe' }
   | sync =>
     have ecmd : (b.wd.sw.step c .sync).2 = ((b.wd.sw.s.prepSync (some (b.wd.sw.ttyw, b.wd.sw.ttyh))).draw c).2 := by
       simp only [ScrW.step, Scr.sync, hf, Bool.false_eq_true, if_false]
     show Rep c rc (b.e.feed (Render.renderAll rc (b.wd.sw.step c .sync).2)) (b.wd.t.applyAll (b.wd.sw.step c .sync).2)
     apply simA R
     rw [ecmd]
-    apply draw_admits hc.rwOk hc.rwB hc.pay hc.noCorner
+    apply draw_admits hc.rwOk hc.rwB hc.pay
     obtain ⟨okb, _, e1, e2, _⟩ := (prep_ok hc.rwOk b.wd.sw.s b.wd.sw.ttyw b.wd.sw.ttyh inv.buf inv.fini inv.clear).1
-    exact { tw := by rw [e1]; exact inv.tdim.1, th := by rw [e2]; exact inv.tdim.2, buf := okb, ext := bi.b.prepSync _ _ bi.tty }
+    have hs' : (b.wd.step c .sync).sw.s = ((b.wd.sw.s.prepSync (some (b.wd.sw.ttyw, b.wd.sw.ttyh))).draw c).1 := by
+      simp only [World.step, ScrW.step, Scr.sync, hf, Bool.false_eq_true, if_false]
+    have hsafe' : CornerSafe c (b.wd.step c .sync).sw.s := hsafe
+    rw [hs'] at hsafe'
+    exact { tw := by rw [e1]; exact inv.tdim.1, th := by rw [e2]; exact inv.tdim.2, buf := okb, ext := bi.b.prepSync _ _ bi.tty,
+            w2 := w2_of_safe hsafe' }
   | ttyResizeNotify w h =>
     have ecmd : (b.wd.sw.step c (.ttyResizeNotify w h)).2 = ((b.wd.sw.s.prepResize (some (w, h))).draw c).2 := by
       simp only [ScrW.step, Scr.onResize]
@@ -205,21 +223,34 @@ theorem rep_step {c : DrawCfg} {rc : RenderCfg} (hc : CfgB c rc) {b : BWorld} (i
       ((b.wd.t.resized w h).applyAll (b.wd.sw.step c (.ttyResizeNotify w h)).2)
     apply simA (rep_resize R w h hb.1 hb.2.1)
     rw [ecmd]
-    apply draw_admits hc.rwOk hc.rwB hc.pay hc.noCorner
+    apply draw_admits hc.rwOk hc.rwB hc.pay
     obtain ⟨okb, _, e1, e2, _⟩ := (prep_ok hc.rwOk b.wd.sw.s w h inv.buf inv.fini inv.clear).2
-    exact { tw := by rw [e1]; rfl, th := by rw [e2]; rfl, buf := okb, ext := bi.b.prepResize _ _ hb }
+    have hs' : (b.wd.step c (.ttyResizeNotify w h)).sw.s = ((b.wd.sw.s.prepResize (some (w, h))).draw c).1 := by
+      simp only [World.step, ScrW.step, Scr.onResize]
+    have hsafe' : CornerSafe c (b.wd.step c (.ttyResizeNotify w h)).sw.s := hsafe
+    rw [hs'] at hsafe'
+    exact { tw := by rw [e1]; rfl, th := by rw [e2]; rfl, buf := okb, ext := bi.b.prepResize _ _ hb, w2 := w2_of_safe hsafe' }
 
-/-- **after every history the emulator represents the abstract terminal** -/
+/-- **after every history the emulator represents the abstract terminal** (on corner-trick terminals: every history along which
+    Layer A's side condition `World.SafeRun` holds) -/
 theorem rep_reach {c : DrawCfg} {rc : RenderCfg} (hc : CfgB c rc) (ops : List ScrOp) :
     ∀ (b : BWorld), WInv c b.wd → BWInv c b.wd → Rep c rc b.e b.wd.t →
-      (∀ op ∈ ops, op.Valid c ∧ OpB c op) → Rep c rc (b.run c rc ops).e (b.run c rc ops).wd.t := by
+      (∀ op ∈ ops, op.Valid c ∧ OpB c op) → World.SafeRun c b.wd ops → Rep c rc (b.run c rc ops).e (b.run c rc ops).wd.t := by
   induction ops with
-  | nil => intro b _ _ R _; exact R
+  | nil => intro b _ _ R _ _; exact R
   | cons o os ih =>
-    intro b inv bi R hv
+    intro b inv bi R hv hs
     have ho := hv o (List.mem_cons_self ..)
     simp only [BWorld.run, List.foldl_cons]
-    exact ih (b.step c rc o) (step_inv hc.rwOk hc.noCorner inv o ho.1) (bwinv_step inv bi o ho.2)
-      (rep_step hc inv bi R o ho.2) (fun o' h' => hv o' (List.mem_cons_of_mem _ h'))
+    exact ih (b.step c rc o) (step_inv_c hc.rwOk hc.walk inv o ho.1 hs.1) (bwinv_step inv bi o ho.2)
+      (rep_step hc inv bi R o ho.2 hs.1) (fun o' h' => hv o' (List.mem_cons_of_mem _ h')) hs.2
+
+/-- the side condition along `ops ++ [op]`, taken apart -/
+theorem safeRun_split {c : DrawCfg} : ∀ (ops : List ScrOp) (wd : World) (op : ScrOp),
+    World.SafeRun c wd (ops ++ [op]) → World.SafeRun c wd ops ∧ (wd.run c ops).SafeAt c op
+  | [], _, _, h => ⟨trivial, h.1⟩
+  | o :: ops, wd, op, h => by
+    have r := safeRun_split ops (wd.step c o) op h.2
+    exact ⟨⟨h.1, r.1⟩, by simpa [World.run] using r.2⟩
 
 end Tcell.LayerB
